@@ -30,6 +30,10 @@ PROXY_PATHS = ["{X}[1][2]", "{X}(1, 2)", "{X}[1].front()", "{X}[1].back()", "{X}
                "{X}({{0, 2}}, 1)[1]", "*{X}.diagonal().begin()"]
 
 
+TRANSFORMED_PATHS = ["{X}[1][2]", "{X}(1, 2)", "*{X}[1].begin()", "*{X}.elements().begin()", "{X}.elements()[3]", "{X}()[1][2]", "{X}.sliced(0,2)[1][2]", "(*{X}.begin())[2]",
+                     "{X}.transposed()[2][1]", "{X}.rotated()[2][1]", "{X}[1].front()", "{X}.strided(1)[1][2]", "{X}.home()[1][2]", "{X}.diagonal()[1]"]
+
+
 def mutators(D):
     m = [("assign-array", "{E} = B;"), ("assign-view", "{E} = B();"), ("elements-assign", "{E}.elements() = B.elements();"), ("swap", "{{ using std::swap; swap({E}(), B()); }}"),
          ("element-write", "{E}" + "[0]" * D + " = 1;"), ("call-write", "{E}(" + ", ".join(["0"] * D) + ") = 1;"), ("begin-write", "(*{E}.begin())" + "[0]" * (D - 1) + " = 1;"),
@@ -94,6 +98,18 @@ void probe() { int buf[12] = {}; multi::array_ref<int, 2, proxy::ptr<int>> P(pro
         for root, exp in (("P", True), ("cP", False)):
             items.append(("D2|%s|write|%s" % ("mutable-path-rejects" if exp else "const-path-accepts", pth.format(X="<mutable array_ref over a proxy-reference pointer>" if exp else "<const array_ref over a proxy-reference pointer>")),
                           ppre % (pth.format(X=root) + " = 9;"), exp))
+    # ... and over a projection whose function returns a reference (element_transformed(&S::a)): the view held by const reference must not hand out modifiable elements
+    tpre = """#include <boost/multi/array.hpp>
+namespace multi = boost::multi;
+struct S { int a; int b; };
+void probe() { multi::array<S, 2> arr({3, 4}); auto&& T = arr.element_transformed(&S::a); auto const& cT = T; (void)cT;
+	%s
+}
+"""
+    for pth in TRANSFORMED_PATHS:
+        for root, exp in (("T", True), ("cT", False)):
+            items.append(("D2|%s|write|%s" % ("mutable-path-rejects" if exp else "const-path-accepts", pth.format(X="<element_transformed(&S::a) view>" if exp else "<const reference to an element_transformed(&S::a) view>")),
+                          tpre % (pth.format(X=root) + " = 9;"), exp))
     viol, samples, vacuous = {}, [], []
     n_const = n_mut = 0
     with cf.ThreadPoolExecutor(max_workers=os.cpu_count() or 8) as ex:
